@@ -379,7 +379,9 @@ def run(ck):
     cases = []
     for f in fams:
         if f not in ("exact_rff_lazy",):
-            cases.append(dict(fam=f, point="eval_predicted", mech="state_dict_into_used", seed=ck.seed + 3))
+            # a checkpoint from ANY save point (incl. one taken before the original's first call) into a model that has already been used
+            for p in points:
+                cases.append(dict(fam=f, point=p, mech="state_dict_into_used", seed=ck.seed + 3))
         for p, mch in itertools.product(points, mechs):
             if not thorough and p == "fresh" and mch != "state_dict":
                 continue
